@@ -353,12 +353,14 @@ func (i *interpreter) binop(op token.Token, t types.Type, x, y value) value {
 			if op == token.ADD && yv == 1 && !xv.Inc {
 				return TimeByte{xv.T, xv.I, true}
 			}
-			// a digit (or a digit + 1) is never the zero byte
-			if op == token.NEQ && yv == 0 {
-				return true
-			}
-			if op == token.EQL && yv == 0 {
-				return false
+			// the byte is an ASCII digit (or a digit + 1): it differs from anything outside '0'..':'
+			if yv < '0' || yv > ':' {
+				if op == token.NEQ {
+					return true
+				}
+				if op == token.EQL {
+					return false
+				}
 			}
 		}
 		unsupported("operation %s on a symbolic time-format byte", op)
